@@ -379,6 +379,16 @@ func vSvgMat(tr transform, fs, d Fl) matrix.Transform {
 //@   loop 1 invariant rangeindex == -1 ==> mat == matrix.Identity()
 //@   loop 1 decreases len(transforms) - rangeindex
 
+// the product of a non-empty transform list is handed to the backend exactly once, as computed from the
+// whole list, whenever it is invertible (mirrors, whose determinant is negative, included); a singular
+// product disables rendering of the element and is not handed over
+//@ func applyTransform
+//@   props C17
+//@   modifies anything
+//@   call aggregateTransforms#1 assert[whole-list] arg0 == transforms && arg1 == dims.fontSize && arg2 == dims.innerDiagonal
+//@   call Transform#1 assert[the-product] arg1 == mat
+//@   ensures[invertible-products-reach-the-backend] len(transforms) != 0 && mat.Determinant() != 0 ==> calls(Transform) == 1
+
 // ---------------------------------------------------------------------------
 // C18 / C01: reference cycles among gradients and patterns. inheritElement follows the href of
 // a gradient/pattern to the element it inherits from; the recursion is finite because the
